@@ -11,6 +11,10 @@ var allSites = []string{"ctrlo", "plain", "plain-locked", "logf", "logf-locked",
 
 func genConfig(job *simkit.Job, rng *simkit.RNG, idx int64) (Config, []Action) {
 	cfg := Config{Profile: job.Property, ChanCap: []int{4, 64, 1024}[rng.Intn(3)], NoTS: rng.Chance(1, 3), Steps: rng.Range(10, 80)}
+	if rng.Chance(1, 6) {
+		cfg.Stall = true // no shell attached: entered lines pile up on the input channel
+		cfg.ChanCap = []int{1, 2, 4}[rng.Intn(3)]
+	}
 	mode := rng.Pick([]int{70, 18, 12}) // timing | lock-order template | lock-order random
 	if job.Mode == "selftest" && mode != 0 && rng.Chance(1, 2) {
 		mode = 0
@@ -102,6 +106,10 @@ func (s *sim) generate() (Action, bool) {
 	add(Action{K: "sleep", Ns: s.genSleep()}, 26)
 	add(Action{K: "key", B: []byte(fmt.Sprintf("typed%d\r", len(s.typedLines)))}, 6)
 	add(Action{K: "key", B: []byte{0x09}}, 3)
+	add(Action{K: "drain"}, 4)
+	// output ending in an incomplete UTF-8 sequence (Latin-1 text, binary data, a cut character)
+	tails := []string{"\xe9", "\xf0\x9f", "caf\xc3", "\xff\xfe"}
+	add(Action{K: "plain", B: []byte(fmt.Sprintf("<P%d>", len(s.plainSent)) + tails[r.Intn(len(tails))])}, 6)
 	add(Action{K: "key", B: []byte{0x0a}}, 2)
 	i := r.Pick(ws)
 	if i < 0 {
